@@ -1,4 +1,9 @@
 (* C18 driver. Answer line: <model>\t<spec>\t<classes> *)
+
+(* Which RemoveOneFile the deciding model follows: false = the code as written (deletes by the wrong key),
+   true = the repaired code (work/fixes/C18-remove-key.diff; theorem C18_index_refines_fixed, unguarded).
+   Flip this ONE constant when the fix is committed to /repo. *)
+let fixed_remove = true
 let split_list s = if s = "-" || s = "" then [] else String.split_on_char ',' s
 let uniq l = List.sort_uniq compare l
 let set_s l = "{" ^ String.concat "|" (uniq l) ^ "}"
@@ -25,7 +30,7 @@ let index_leg = (fun line ->
       match rest with
       | [] -> (List.rev macc, List.rev sacc, stale)
       | o :: tl ->
-        let st' = idx_step st o in
+        let st' = if fixed_remove then idx_step_fixed st o else idx_step st o in
         let s' = files_step sfiles o in
         let done' = done_ops @ [o] in
         let m = String.concat "|" (List.map (fun n ->
@@ -156,7 +161,7 @@ let () = register "c18.project" (fun line ->
       match evl with
       | [] -> (List.rev (m :: macc), List.rev (sp :: sacc), stale, skipped)
       | e :: tl ->
-        let s' = pstep cfg cur false s e in
+        let s' = pstep cfg cur fixed_remove s e in
         let (disk', lua', stale') = (match e with
           | Ins p -> ((if List.mem p disk then disk else disk @ [p]), (if List.mem p lua then lua else lua @ [p]), stale)
           | Rem p -> (List.filter (fun g -> g <> p) disk, List.filter (fun g -> g <> p) lua, stale || List.mem p lua)) in
